@@ -144,6 +144,17 @@ def check_setup(kem, aead, mode, acc):
         if got != pt:
             acc.violation("C15/unseal/in-order-delivery", "%s: genuine message #%d in order -> %s" % (name, i, short(got)), case)
             break
+    # the AEAD given by its RFC 9180 code point (a plain int; AEAD is an IntEnum and HPKE.new accepts both): same context
+    try:
+        ri = sc.real_receiver(aead_id=int(aead))
+        got = ri.unseal(sc.cts[0], MSGS[0][1])
+    except Exception as e:  # noqa
+        got = "%s(%s)" % (type(e).__name__, e)
+    acc.count("transitions")
+    if got != MSGS[0][0]:
+        acc.violation("C15/setup/aead-id-as-int-differs-from-enum-member",
+                      "%s: a receiver created with aead_id=%d (plain int) answers %s to the genuine first message; with the enum member it "
+                      "returns the plaintext" % (name, aead, short(got)), case)
     acc.seen("classes", ("setup", kem, aead, mode))
     acc.count("traces")
     acc.count("states", 1 + len(MSGS))
